@@ -487,6 +487,48 @@ func KeyedLoose() *TextSet {
 	})
 }
 
+// NearNumberArrays: arrays of up to three numbers (at the root and under a key) over {1, 1.01, 2, 3, 5, 6}: 1 and 1.01 are
+// within a precision of 0.1 of each other, the rest are not.
+func NearNumberArrays() *TextSet {
+	return memoize("near-numbers", func() *TextSet {
+		var out []V
+		for _, a := range gen.Arrays(3, []V{1.0, 1.01, 2.0, 3.0, 5.0, 6.0}) {
+			out = append(out, a)
+		}
+		for _, a := range gen.Arrays(2, []V{1.0, 1.01, 2.0, 3.0}) {
+			out = append(out, map[string]interface{}{"k": a}, []interface{}{a, 1.0})
+		}
+		return NewTextSet(out)
+	})
+}
+
+// ObjInList: lists holding one object over the keys a, b, c, d (each absent, 1 or 2; 80 non-empty objects and {}), and a
+// few lists of two: a kept member next to several changed or added ones inside a list.
+func ObjInList() *TextSet {
+	return memoize("ObjInList", func() *TextSet {
+		var objs []V
+		for code := 0; code < 81; code++ {
+			o := map[string]interface{}{}
+			c := code
+			for _, k := range []string{"a", "b", "c", "d"} {
+				if v := c % 3; v > 0 {
+					o[k] = float64(v)
+				}
+				c /= 3
+			}
+			objs = append(objs, o)
+		}
+		var out []V
+		for i, o := range objs {
+			out = append(out, []interface{}{o})
+			if i%9 == 4 {
+				out = append(out, []interface{}{o, objs[(i*7+3)%81]}, map[string]interface{}{"k": []interface{}{0.0, o}})
+			}
+		}
+		return NewTextSet(out)
+	})
+}
+
 // Huge: lists whose LCS table exceeds 2^20 cells and bags with more than 1024 distinct members.
 func Huge() *TextSet {
 	return memoize("Huge", func() *TextSet {
@@ -617,6 +659,12 @@ func Large() *TextSet {
 			out = append(out, dup, append(append([]interface{}{}, a...), 7.0))
 		}
 		out = append(out, seq(2), seq(0))
+		// array members whose only keys are long and differ in their last character
+		for _, n := range []int{70, 300} {
+			k := strings.Repeat("organisation.unit.", n/18+1)[:n]
+			out = append(out, []interface{}{map[string]interface{}{k + "1": true}}, []interface{}{map[string]interface{}{k + "2": true}},
+				[]interface{}{map[string]interface{}{k + "1": true}, map[string]interface{}{k + "2": true}}, map[string]interface{}{k + "1": 1.0, k + "2": 2.0}, map[string]interface{}{k + "1": 1.0, k + "2": 3.0})
+		}
 		// keys of 1 500 and 5 000 characters
 		for _, n := range []int{1500, 5000} {
 			k := strings.Repeat("k", n)
